@@ -185,6 +185,7 @@ def rustVariant : Expr → String
   | .not _ | .neg _ => "UnaryOp" | .bin .. => "BinOp" | .cmp .. => "Compare"
   | .getAttr .. => "GetAttr" | .getItem .. => "GetItem" | .slice .. => "Slice" | .ifExpr .. => "IfExpr"
   | .filter .. => "Filter" | .test .. => "Test" | .call .. => "Call"
+  | .callx .filter .. => "Filter" | .callx .test .. => "Test" | .callx .. => "Call"
 
 /-- variants the model never folds -/
 def unfoldedVariants : List String := ["Var", "Slice", "IfExpr", "Filter", "Test", "GetAttr", "GetItem", "Call"]
@@ -221,6 +222,81 @@ theorem call_sites_from_source :
     MJ.Gen.callSites.contains ("compile_call_block", ["Some"]) = true := by
   decide
 
+/-- The sites of `codegen.rs` that can put a value into the instruction stream (`LoadConst`) and the
+    sites that look at the literal-ness of an operand (`ast::Expr::Const/List/Tuple/Map` patterns), as
+    the model knows them: `constsC` has one rule per `compile_expr`/`compile_call_args` row; the rows of
+    `compile_for_loop` (loop filter counter), `compile_macro_expression` (macro object) and `"caller"` are
+    statement-level and carry no user literal. -/
+def knownLoadConstSites : List (String × String) := [
+  ("compile_expr", "v.clone()"),                                          -- fold first
+  ("compile_expr", "negated"),                                            -- `Neg` shortcut
+  ("compile_expr", "Value::from(())"),                                    -- missing slice bound
+  ("compile_expr", "ValueRepr::Undefined(UndefinedType::Silent).into()"), -- missing `else`
+  ("compile_call_args", "Kwargs::wrap(collected_kwargs)"),                -- static keyword arguments
+  ("compile_call_args", "Value::from(*key)"),                             -- dynamic keyword name
+  ("compile_call_args", "Value::from(\"caller\")"),
+  ("compile_for_loop", "Value::from(0usize)"),
+  ("compile_for_loop", "Value::from(1usize)"),
+  ("compile_macro_expression", "Value::from_object( macro_decl .args .iter() .map(|x| match ")]
+
+def knownLiteralMatchSites : List (String × String) := [
+  ("compile_expr", "Const:2"),          -- `unreachable!()` arm, `Neg` shortcut
+  ("compile_expr", "List:1"), ("compile_expr", "Tuple:1"), ("compile_expr", "Map:1"),   -- the arms that build them
+  ("compile_call_args", "Const:2"),     -- static keyword arguments: the test and the collection
+  ("compile_assignment", "List:1")]     -- unpacking targets
+
+/-- No other place of the code generator precomputes a value or inspects whether an operand is a
+    literal: an operator-specific constant rewriting (a lookup table for `in`, a pre-joined string, …)
+    adds a `LoadConst` site or a literal pattern and breaks this theorem. -/
+theorem const_sites_from_source :
+    MJ.Gen.loadConstSites.all (knownLoadConstSites.contains ·) = true ∧
+    MJ.Gen.literalMatchSites.all (knownLiteralMatchSites.contains ·) = true := by
+  decide
+
+/-! ## statements: every statement list is compiled, unconditionally -/
+
+/-- the statement-list fields of the AST, each with the loop of `codegen.rs` that compiles it
+    (`for node in &<var>.<field> { self.compile_stmt(node); }` in the named function) -/
+def stmtLists : List ((String × String) × (String × String)) := [
+  (("Template", "children"), ("compile_stmt", "t.children")),
+  (("ForLoop", "body"), ("compile_for_loop", "for_loop.body")),
+  (("ForLoop", "else_body"), ("compile_for_loop", "for_loop.else_body")),
+  (("IfCond", "true_body"), ("compile_if_stmt", "if_cond.true_body")),
+  (("IfCond", "false_body"), ("compile_if_stmt", "if_cond.false_body")),
+  (("WithBlock", "body"), ("compile_stmt", "with_block.body")),
+  (("SetBlock", "body"), ("compile_stmt", "set_block.body")),
+  (("Block", "body"), ("compile_block", "block.body")),
+  (("AutoEscape", "body"), ("compile_stmt", "auto_escape.body")),
+  (("FilterBlock", "body"), ("compile_stmt", "filter_block.body")),
+  (("Macro", "body"), ("compile_macro_expression", "macro_decl.body"))]
+
+/-- the conditions in the functions that compile statement lists: emptiness of an `else` list,
+    presence of an optional head, loop bookkeeping - none looks at the VALUE of an expression -/
+def knownStmtConds : List (String × String) := [
+  ("compile_for_loop", "!for_loop.else_body.is_empty()"),
+  ("compile_for_loop", "let Some(ref filter_expr) = for_loop.filter_expr"),
+  ("compile_if_stmt", "!if_cond.false_body.is_empty()"),
+  ("compile_macro_expression", "caller_reference"),
+  ("compile_macro_expression", "let Some(&mut Instruction::Jump(ref mut target)) = self.instructions.g"),
+  ("compile_macro_expression", "let Some(default) = defaults_iter.next()"),
+  ("compile_stmt", "let &mut PendingBlock::Loop"),
+  ("compile_stmt", "let PendingBlock::Loop"),
+  ("compile_stmt", "let Some(ref filter) = set_block.filter")]
+
+def sameSetP (xs ys : List (String × String)) : Bool := xs.all (ys.contains ·) && ys.all (xs.contains ·)
+
+/-- Every `Vec<Stmt>` field of the AST is compiled by exactly one loop of the canonical shape, there
+    is no other call of `compile_stmt`, and no condition around them depends on an expression's value:
+    the traversal `registeredBlocks` of the model (every list, always) is the code generator's.  The
+    seeded change C04-3 (`if let Some(cond) = if_cond.expr.as_const()` choosing the list) breaks all
+    three conjuncts. -/
+theorem stmt_traversal_from_source :
+    sameSetP MJ.Gen.stmtListFields (stmtLists.map (·.1)) = true ∧
+    sameSetP MJ.Gen.stmtCompileLoops (stmtLists.map (·.2)) = true ∧
+    MJ.Gen.stmtCompileLoops.length = stmtLists.length ∧
+    MJ.Gen.stmtCompileConds.all (knownStmtConds.contains ·) = true := by
+  decide
+
 /-- the model's folder dispatches over the table: a node other than a plain constant is folded only
     if the table it is given (for the concrete instance: the arms of `Expr::as_const` regenerated
     from the source) lists its variant -/
@@ -228,7 +304,7 @@ theorem asConst_dispatches_over_table (e : Expr) (h : asConst P e ≠ none) :
     rustVariant e = "Const" ∨ P.foldsVariant (rustVariant e) = true := by
   cases e
   case const => exact Or.inl rfl
-  case var | getAttr | getItem | slice | ifExpr | filter | test | call =>
+  case var | getAttr | getItem | slice | ifExpr | filter | test | call | callx =>
     exfalso; apply h; simp [asConst]
   all_goals
     refine Or.inr ?_
